@@ -33,7 +33,7 @@ var (
 			"cookie, a client never receives a backend cookie; non-trivial = at least two goroutines share a session and at least two differ")
 )
 
-func TestMain(m *testing.M) { vh.Main(m, recH, recS, recPK) }
+func TestMain(m *testing.M) { vh.Main(m, recH, recS, recPK, recF) }
 
 const cookieName = "agent-session"
 
@@ -482,6 +482,13 @@ func TestReplay(t *testing.T) {
 	if ok, _ := vh.ReplayCase("concurrent-sessions", &s); ok {
 		for i := 0; i < 5*vh.ReplayRuns(); i++ {
 			recS.Check(t, &s, func() vh.Outcome { return runStress(&s) })
+		}
+		return
+	}
+	var fu FirstUse
+	if ok, _ := vh.ReplayCase("concurrent-first-use", &fu); ok {
+		for i := 0; i < 5*vh.ReplayRuns(); i++ {
+			recF.Check(t, &fu, func() vh.Outcome { return runFirstUse(&fu) })
 		}
 		return
 	}
